@@ -127,10 +127,10 @@ MUTANTS: list[tuple[str, str, str, str, list[str]]] = [
     ("c18-stale-alignment", "types/structure.py", "        classdict[\"alignment\"] = alignment\n", "", ["C18.R2", "C04.R2"]),
     ("c18-stale-reader", "types/structure.py", "                classdict[\"_read\"] = classmethod(Structure._read.__func__)\n                classdict[\"__compiled__\"] = False", "                pass", ["C18.R2"]),
     ("c18-finally", "types/structure.py", "        finally:\n            cls.commit()\n            cls.__updating__ = False", "        finally:\n            cls.__updating__ = False", ["C18.R1"]),
-    ("c20-str-alias", "tools/stubgen.py", "        if isinstance(typedef, str):\n            # An alias by name (e.g. ``cs.add_type(\"a\", \"uint8\")``) has no type object to inspect\n            body.append(textwrap.indent(f\"{name}: TypeAlias = {cs_prefix}{typedef}\", prefix=indent))\n            continue\n\n", "", ["C20.R3"]),
-    ("c20-array-typedef", "tools/stubgen.py", "        elif issubclass(typedef, (types.BaseArray, types.Pointer)):", "        elif False:", ["C20.R6"]),
-    ("c20-skip-bits", "tools/stubgen.py", "        result.append(f\"    {field_name}: {type_hint}\")", "        if not field.bits:\n            result.append(f\"    {field_name}: {type_hint}\")", ["C20.R4"]),
-    ("c20-enum-const", "tools/stubgen.py", "        if isinstance(value, (types.Enum, types.Flag)):\n            # Members of anonymous enums are registered as constants, their repr is not a literal but their value is\n            value = value.value\n", "", ["C20.R7"]),
+    ("c20-str-alias", "tools/stubgen.py", "        if isinstance(typedef, str):\n            # An alias by name (e.g. ``cs.add_type(\"a\", \"uint8\")``) has no type object to inspect\n            body.append(textwrap.indent(f\"{name}: TypeAlias = {cs_prefix}{typedef}\", prefix=indent))\n            continue\n\n", "", ["C20.R3", "C20.R13"]),
+    ("c20-array-typedef", "tools/stubgen.py", "        elif issubclass(typedef, (types.BaseArray, types.Pointer)):", "        elif False:", ["C20.R6", "C20.R13"]),
+    ("c20-skip-bits", "tools/stubgen.py", "        result.append(f\"    {field_name}: {type_hint}\")", "        if not field.bits:\n            result.append(f\"    {field_name}: {type_hint}\")", ["C20.R4", "C20.R13"]),
+    ("c20-enum-const", "tools/stubgen.py", "        if isinstance(value, (types.Enum, types.Flag)):\n            # Members of anonymous enums are registered as constants, their repr is not a literal but their value is\n            value = value.value\n", "", ["C20.R7", "C20.R13"]),
     ("c20-uint48-name", "cstruct.py", "self._make_int_type(\"uint48\", 6, False, alignment=8)", "self._make_int_type(\"int48\", 6, False, alignment=8)", ["C20.R5", "C04.R1"]),
 ]
 
@@ -140,14 +140,14 @@ REVERTS: list[tuple[str, str, list[str]]] = [
     ("revert-F2", "fix: name the uint48 type", ["C04.R1", "C20.R5"]),
     ("revert-F10", "fix: allow whitespace between a field name", ["C13.R2"]),
     ("revert-F8", "fix: use a unary-minus marker", ["C10.R4"]),
-    ("revert-F7", "fix: generate a stub for string type aliases", ["C20.R3"]),
+    ("revert-F7", "fix: generate a stub for string type aliases", ["C20.R3", "C20.R13"]),
     ("revert-F1", "fix: rebuild unions through the top-level member", ["C11.R4"]),
     ("revert-F5a", "fix: give every element of a default array", ["C14.R2"]),
     ("revert-F9", "fix: record _values/_sizes when a single-char structure", ["C09.R3"]),
     ("revert-F4", "fix: keep rejecting bit field values that overflow a signed storage unit|fix: write bit-field units of signed storage types", ["C06.R5", "C01.R6"]),
     ("revert-F11", "fix: record member sizes of a dynamic union", ["C09.R4"]),
-    ("revert-F12", "fix: alias every typedef of an array or pointer type to its type hint|fix: alias typedefs of array and pointer types", ["C20.R6"]),
-    ("revert-F13", "fix: emit the integer value of anonymous enum members", ["C20.R7"]),
+    ("revert-F12", "fix: alias every typedef of an array or pointer type to its type hint|fix: alias typedefs of array and pointer types", ["C20.R6", "C20.R13"]),
+    ("revert-F13", "fix: emit the integer value of anonymous enum members", ["C20.R7", "C20.R13"]),
     ("revert-F14", "fix: leave structures with byte-based|fix: slice compiled arrays of enums|fix: start a new compiled read block when a field offset moves backwards|fix: start a new compiled read block when a field behind|fix: seek to the field offset when a compiled read block starts behind a gap", ["C03.R8", "C03.R24"]),
     ("revert-F15", "fix: start a new compiled read block when a field offset moves backwards|fix: leave structures with byte-based|fix: slice compiled arrays of enums|fix: start a new compiled read block when a field behind", ["C03.R12", "C03.R24"]),
     ("revert-F16", "fix: leave structures with byte-based|fix: slice compiled arrays of enums", ["C03.R13", "C03.R24"]),
@@ -158,15 +158,15 @@ REVERTS: list[tuple[str, str, list[str]]] = [
     ("revert-F20", "fix: keep array sizes that name an earlier field", ["C07.R11", "C10.R8"]),
     ("revert-F23", "fix: do not align the stream after a structure without fields", ["C09.R5", "C09.R6", "C03.R19"]),
     ("revert-F24", "fix: aligned layout keeps bit fields of one unit together|fix: allow bit fields of the same type behind a dynamically sized field", ["C04.R12", "C06.R8"]),
-    ("revert-F25", "fix: remember the storage type of every compiled bit field unit", ["C06.R1", "C03.R9"]),
+    ("revert-F25", "fix: remember the storage type of every compiled bit field unit", ["C06.R1", "C03.R9", "C03.R24", "C06.R11"]),
     # F28 (values are refused at write()) makes the overflow of F26 unreachable, so F26 is only visible with F28 reverted as well
     ("revert-F26", "fix: reject bit field values that do not fit their field|fix: keep rejecting bit field values that overflow a signed storage unit", ["C06.R5", "C01.R6"]),
-    ("revert-F29", "fix: give the stub class of an enum without members a body", ["C20.R12"]),
-    ("revert-F30", "fix: alias every typedef of an array or pointer type to its type hint", ["C20.R12"]),
+    ("revert-F29", "fix: give the stub class of an enum without members a body", ["C20.R12", "C20.R13"]),
+    ("revert-F30", "fix: alias every typedef of an array or pointer type to its type hint", ["C20.R12", "C20.R13"]),
     ("revert-F31", "fix: do not rebuild a union under the name of an anonymous structure's field", ["C11.R2"]),
     ("revert-F32", "fix: dump a union through its anonymous structure when no regular member is as large", ["C11.R12", "C01.R18"]),
     ("revert-F28", "fix: reject bit field values that do not fit their field", ["C06.R5", "C01.R6"]),
-    ("revert-F36", "fix: stubs name the structure behind a pointer or array field where it is declared", ["C20.R11"]),
+    ("revert-F36", "fix: stubs name the structure behind a pointer or array field where it is declared", ["C20.R11", "C20.R13"]),
     ("revert-F34", "fix: readers no longer align in the middle of a bit field unit", ["C03.R24", "C04.R13"]),
     ("revert-F35", "fix: aligned layout keeps bit fields of one unit together", ["C04.R12", "C06.R8"]),
     ("revert-F27", "fix: do not pad in front of an enum bit field that continues a storage unit", ["C02.R9", "C01.R16", "C04.R13"]),
